@@ -1401,3 +1401,10 @@ def s_uf(m, args, kw, node):
     sorts = [z.sort() for z in zs]
     f = z3.Function("uf_" + str(name), *(sorts + [z3.IntSort()]))
     return Sym(f(*zs), "str" if kw.get("kind") == "str" else "int")
+
+
+@specfn("const_map")
+def s_const_map(m, args, kw, node):
+    """const_map(v): a total map that sends every key to v (resets a ghost map)"""
+    v = args[0]
+    return SymMap(S.Int, None, lambda k: z3.BoolVal(True), lambda k, v=v: v, z3.IntVal(0))
